@@ -31,7 +31,7 @@ def run(ctx: Ctx) -> None:
     if ctx.tier == "thorough":
         ctx.leanchecker(["O2P.Props.C01"])
     quick = ctx.tier == "quick"
-    cases = lc.build_cases(ctx, 250 if quick else 3000, [4, 6, 8, 10, 12], with_corpus=True)
+    cases = lc.build_cases(ctx, 250 if quick else 3000, [4, 6, 8, 10, 12], with_corpus=True, bunched=True)
     ctx.cov["rule"] = (
         "definitions: the exhaustive small family (one fork of 2-3 single-event branches, one loop of 1-2 events with and "
         "without a break, two nested forks of every operator pair), seeded random definitions of fragment F up to 12 "
